@@ -4,7 +4,10 @@ From DV Require Export RightsSpec Authz.
 Inductive c01case :=
 | CMatrix (evs : list event) (probes : list (key * entity * Z))
 | CMut (defs : list (uid * list event)) (me : key) (ms : list ment)
-| CDel (defs : list (uid * list event)) (me : key) (now : Z) (ns : list dnode) (es : list dedge).
+| CDel (defs : list (uid * list event)) (me : key) (now : Z) (ns : list dnode) (es : list dedge)
+       (upd : list dnode)     (* source rows a reference deletion re-dates and re-signs (DeletionQuery.updated_nodes) *)
+| CE2E (inner : c01case).    (* the same operation submitted as text through the public API of a real instance:
+                                observation = [refused?; database changed?] *)
 
 Definition build_rooms (defs : list (uid * list event)) : list room :=
   map (fun p => build (fst p) (snd p)) defs.
@@ -27,13 +30,18 @@ Definition probe_spec (evs : list event) (p : key * entity * Z) : list Z :=
    zb (admin_at evs k d || existsb (fun g => member_at evs g k d) (groups evs))].
 
 (* what the model says the implementation does *)
-Definition run_C01 (c : c01case) : list Z :=
+Fixpoint run_C01 (c : c01case) : list Z :=
   match c with
   | CMatrix evs probes =>
       let '(r, oks) := build_from (empty_room 1%N) evs in
       map zb oks ++ flat_map (probe_model r) probes
   | CMut defs me ms => [verdict_code (validate_all me (build_rooms defs) ms)]
-  | CDel defs me now ns es => [verdict_code (validate_deletion me now (build_rooms defs) ns es)]
+  | CDel defs me now ns es upd => [verdict_code (validate_deletion me now (build_rooms defs) ns es upd)]
+  | CE2E inner =>
+      match run_C01 inner with
+      | [v] => if Z.eqb v 0 then [0; 1] else [1; 0]      (* accepted: applied; refused: nothing changes *)
+      | l => l
+      end
   end.
 
 (* ---- the property's own oracle, evaluated on what the IMPLEMENTATION answered ---- *)
@@ -72,7 +80,12 @@ Fixpoint drop {A} (n : nat) (l : list A) := match n, l with O, _ => l | S k, _ :
 Fixpoint chunks {A} (n : nat) (k : nat) (l : list A) : list (list A) :=
   match n with O => [] | S m => firstn k l :: chunks m k (drop k l) end.
 
-Definition spec_C01 (c : c01case) (obs : list Z) : bool :=
+(* the source row of a reference deletion is rewritten under the caller's name at `now`: the
+   caller needs the own-rows right if it authored the row, the all-rows right otherwise *)
+Definition upd_entitled (defs : list (uid * list event)) (me : key) (now : Z) (n : dnode) : bool :=
+  del_entitled defs me now (dn_kind n) (dn_ent n) (dn_room n) (dn_author n) now.
+
+Fixpoint spec_C01 (c : c01case) (obs : list Z) : bool :=
   match c with
   | CMatrix evs probes =>
       (* decisions of the real Room must be those the history grants *)
@@ -84,12 +97,20 @@ Definition spec_C01 (c : c01case) (obs : list Z) : bool :=
       | [v] => if Z.eqb v 0 then forallb (head_entitled defs me) (flat_map written ms) else true
       | _ => false
       end
-  | CDel defs me now ns es =>
+  | CDel defs me now ns es upd =>
       match obs with
       | [v] => if Z.eqb v 0 then
                  forallb (fun n => del_entitled defs me now (dn_kind n) (dn_ent n) (dn_room n) (dn_author n) (dn_date n)) ns &&
-                 forallb (fun n => del_entitled defs me now (de_kind n) (de_ent n) (de_room n) (de_author n) (de_date n)) es
+                 forallb (fun n => del_entitled defs me now (de_kind n) (de_ent n) (de_room n) (de_author n) (de_date n)) es &&
+                 forallb (upd_entitled defs me now) upd
                else true
+      | _ => false
+      end
+  | CE2E inner =>
+      match obs with
+      | [refused; changed] =>
+          if Z.eqb refused 0 then spec_C01 inner [0]
+          else Z.eqb changed 0                      (* a refused operation leaves the database unchanged *)
       | _ => false
       end
   end.
@@ -107,6 +128,8 @@ Fixpoint wf_tree (m : ment) : bool :=
 (* classes of inputs on which the tree is known to violate the property and that are recorded
    as open findings in known_findings.json: none for C01 (both defects found by this check
    were repaired: see known_findings.json "fixed" entries) *)
+(* classes of inputs recorded as OPEN findings in known_findings.d/C01.json: none (the three
+   defects this check found were repaired; see the "fixed" entries there) *)
 Definition known_C01 (c : c01case) : list Z := [].
 
 Definition eval_C01 (c : c01case) (obs : list Z) : list Z :=
